@@ -269,6 +269,10 @@ class FlowConfigParser(configparser.ConfigParser):
         args = kwargs.copy()
         if 'strict' not in args:
             args['strict'] = False
+        if 'interpolation' not in args:
+            # VV: Values are always read raw (%(variable)s references are resolved by Flow, not by ConfigParser). With the
+            #     default interpolation set() refuses to store a value that contains a plain `%` (e.g. `date +%Y`)
+            args['interpolation'] = None
         super(FlowConfigParser, self).__init__(defaults, dict_type, allow_no_value=allow_no_value, **args)
 
     def get(self, section, option, raw=True, vars=None):
